@@ -55,6 +55,22 @@ func (w *world) rollback(op WOp) {
 	}
 	cp := w.cp
 	entry := "Rollback"
+	faulted := false
+	if op.E && w.kv != nil {
+		// the batch with which the rollback removes the nodes of the rolled-back commit fails (nothing applied); the
+		// rollback entry points report no error, so afterwards only the leftover clause is relaxed
+		w.kv.FailCommit = map[int]bool{w.kv.St.Batches + 1: true}
+		before := w.kv.St.CommitErrs
+		defer func() {
+			w.kv.FailCommit = nil
+		}()
+		defer func() { _ = before }()
+		faulted = true
+	}
+	errsBefore := 0
+	if w.kv != nil {
+		errsBefore = w.kv.St.CommitErrs
+	}
 	if w.guard("rollback", func() {
 		if op.N%2 == 0 {
 			w.t.Rollback()
@@ -65,6 +81,14 @@ func (w *world) rollback(op WOp) {
 	}) {
 		return
 	}
+	if w.kv != nil {
+		w.kv.FailCommit = nil
+		faulted = faulted && w.kv.St.CommitErrs > errsBefore
+	}
+	if faulted {
+		w.stats.Inc("fault.rollback-batch-write-error")
+	}
+	w.rolledBack = true
 	w.stats.Inc("probe.rollback-" + entry)
 	if w.afterCP > 0 {
 		w.stats.Inc("probe.rollback-of-a-commit")
@@ -96,8 +120,10 @@ func (w *world) rollback(op WOp) {
 	if w.v != nil {
 		return
 	}
-	// nodes only the rolled-back commit created are gone
-	if w.keysAfterB != nil {
+	// nodes only the rolled-back commit created are gone (unless the storage refused the deletes)
+	if faulted {
+		w.stats.Inc("relaxed.leftover-after-failed-delete-batch")
+	} else if w.keysAfterB != nil {
 		for k := range w.keysAfterB {
 			if !w.keysBeforeB[k] && w.kv.Has([]byte(k)) {
 				w.fail("c13.leftover", entry+":created-node-left", "after %s node %x, written only by the rolled-back commit, is still in storage", entry, k)
